@@ -219,7 +219,7 @@ def make_case(texts: List[str], recipes: List[Any], ks: List[Any]) -> Case:
 
 def mk_suite() -> Suite:
     return Suite(name="scale", imports=IMPORTS, in_ty="scase", out_ty="blocks", check="check_scale", show="show_scale",
-                 shard=120)
+                 shard=40)
 
 
 def suites(tier: str, seed: int) -> List[Suite]:
@@ -227,7 +227,7 @@ def suites(tier: str, seed: int) -> List[Suite]:
     if tier == "replay":
         return [su]
     rng = random.Random(seed * 7919 + 3)
-    corpus = C08.compiled_corpus(rng, 400 if tier == "quick" else 8000)
+    corpus = C08.compiled_corpus(rng, 400 if tier == "quick" else 5000)
     for texts, recipes in corpus:
         su.cases.append(make_case(texts, recipes, [C08.gen_factor(rng)]))
         su.cases.append(make_case(texts, recipes, [C08.gen_factor(rng), C08.gen_factor(rng)]))
